@@ -40,7 +40,7 @@ func parseTagAndLength(bytes []byte) (r tagAndLen, off int, e error) {
 		off++
 	} else {
 		lenOctets := int(bytes[off] & 0x7f)
-		if lenOctets > 3 {
+		if lenOctets > 8 {
 			e = fmt.Errorf("length is too large")
 			return r, off, e
 		}
@@ -56,6 +56,10 @@ func parseTagAndLength(bytes []byte) (r tagAndLen, off int, e error) {
 		var val int64
 		val, e = parseInt64(bytes[off : off+lenOctets])
 		if e != nil {
+			return r, off, e
+		}
+		if val < 0 || val > int64(len(bytes)) {
+			e = fmt.Errorf("length is too large")
 			return r, off, e
 		}
 
